@@ -7,6 +7,7 @@ import (
 	"sort"
 	"strings"
 
+	"github.com/bitcoin-sv/block-headers-service/verifharness/deco"
 	"github.com/bitcoin-sv/block-headers-service/verifharness/ev"
 	"github.com/bitcoin-sv/block-headers-service/verifharness/gen"
 	"github.com/bitcoin-sv/block-headers-service/verifharness/mb"
@@ -226,19 +227,26 @@ func trim(s string) string {
 }
 
 func body(r *ev.Run) {
-	r.Rule("histories = (a) every labelled tree with <=N new headers (parent in {genesis, unknown hash, any earlier header}) x work-class alphabet x every arrival permutation, plus one duplicate re-submission per history; (b) seeded random histories (forks, orphans, late parents, duplicates, forbidden hashes, all bits classes incl. zero/negative/truncating/huge-exponent/random/work next to 2^32, 2^64, 2^128, 2^192); (c) reorganisations over 500 and 2002 heights (thorough: 499..2600, around the multiples of 500 and 1000). distinct = distinct shape signatures (parent relation + bits per arrival position); non-trivial = contains a fork, orphan, duplicate or reorganisation as reported by the reference model.")
+	r.Rule("histories = (a) every labelled tree with <=N new headers (parent in {genesis, unknown hash, any earlier header}) x work-class alphabet x every arrival permutation, plus one duplicate re-submission per history; (b) seeded random histories (forks, orphans, late parents, duplicates, forbidden hashes, all bits classes incl. zero/negative/truncating/huge-exponent/random/work next to 2^32, 2^64, 2^128, 2^192); (d) two competing children of the tip submitted by two goroutines at once (the stored labels must be the outcome of one of the two orders); (c) reorganisations over 500 and 2002 heights (thorough: 499..2600, around the multiples of 500 and 1000). distinct = distinct shape signatures (parent relation + bits per arrival position); non-trivial = contains a fork, orphan, duplicate or reorganisation as reported by the reference model.")
 	r.Assume("reference model refmodel/ is a faithful transcription of the C01 statement", "SQLite engine only", "mainnet genesis as chain root")
 	r.Require("reorgs_observed", 20)
 	r.Require("orphans_observed", 20)
 	r.Require("duplicates_answered", 20)
 	mb.ForbiddenHeaders()
-	st, err := rig.New(rig.Options{Dir: r.Scratch})
+	pc := &pairCtl{}
+	st, err := rig.New(rig.Options{Dir: r.Scratch, WrapHeaders: deco.Wrap(pc.hooks())})
 	if err != nil {
 		r.Violate("harness|rig", err.Error(), "", nil)
 		return
 	}
 	defer st.Destroy()
 	e := &env{r: r, st: st}
+	// (d) two peers deliver competing headers at the same moment
+	for i := 0; i < r.Pick(16, 200); i++ {
+		caseID := fmt.Sprintf("pairs/%d", i)
+		r.Do(caseID, func() { e.competingPairs(caseID, r.Rand(caseID), pc) })
+	}
+	r.Require("competing_pairs_submitted_at_once", 100)
 
 	if r.Only != "" && strings.HasPrefix(r.Only, "replay:") {
 		return
